@@ -634,6 +634,65 @@ func init() {
 				c, ok := prog.Strip(v).(*ssa.Call)
 				return ok && prog.CallObj(c) != nil && prog.CallObj(c).Name() == "Lamport"
 			}}
+			// leaves of a value: what it can be and where it comes from. A leaf is a value with the phi edge
+			// that carries it (nil edge: the value is used as it is, at instruction `at`). A call of a function
+			// of the model that takes the vector is looked through: its returned values are the leaves,
+			// located inside the callee (helpers like "lamport at change" or "ticket known").
+			type leaf struct {
+				fn   *ssa.Function
+				val  ssa.Value
+				edge *prog.Edge
+				at   ssa.Instruction
+			}
+			takesVV := func(f *ssa.Function) bool {
+				for _, pm := range f.Params {
+					if isNamed(pm.Type(), vvT) {
+						return true
+					}
+				}
+				return false
+			}
+			var leavesOf func(fn *ssa.Function, v ssa.Value, at ssa.Instruction, edge *prog.Edge, depth int, out *[]leaf)
+			leavesOf = func(fn *ssa.Function, v ssa.Value, at ssa.Instruction, edge *prog.Edge, depth int, out *[]leaf) {
+				if depth > 6 {
+					*out = append(*out, leaf{fn, v, edge, at})
+					return
+				}
+				switch t := v.(type) {
+				case *ssa.Phi:
+					for i, e := range t.Edges {
+						pred := t.Block().Preds[i]
+						ed := prog.Edge{From: pred, To: t.Block()}
+						leavesOf(fn, e, pred.Instrs[len(pred.Instrs)-1], &ed, depth+1, out)
+					}
+					return
+				case *ssa.Call:
+					if callee := t.Call.StaticCallee(); callee != nil && len(callee.Blocks) > 0 && strings.HasSuffix(prog.PkgOf(callee), "/"+crdtPkg) && takesVV(callee) && callee.Signature.Results().Len() == 1 {
+						for _, r := range prog.Returns(callee) {
+							leavesOf(callee, prog.ReturnValue(r, 0), r, nil, depth+1, out)
+						}
+						return
+					}
+				case *ssa.UnOp:
+					// a local variable assigned on several paths
+					if a, ok := t.X.(*ssa.Alloc); ok && t.Op == token.MUL {
+						for _, r := range *a.Referrers() {
+							if st, isSt := r.(*ssa.Store); isSt && st.Addr == ssa.Value(a) {
+								leavesOf(fn, st.Val, st, nil, depth+1, out)
+							}
+						}
+						return
+					}
+				}
+				*out = append(*out, leaf{fn, v, edge, at})
+			}
+			leafGuarded := func(l leaf, cmps []Cmp) bool {
+				if l.edge != nil {
+					return edgeGuarded(l.fn, *l.edge, cmps)
+				}
+				return x.quietGuarded(l.at, cmps)
+			}
+			coveredCmp := Cmp{L: entry, R: lamportOf, Want: GE}
 			n := 0
 			for _, fn := range x.P.FuncsIn(crdtPkg) {
 				if o := fn.Origin(); o != nil && o != fn {
@@ -651,12 +710,14 @@ func init() {
 						k := fmt.Sprintf("func=%s canStyle#%d", prog.FnName(fn), n)
 						okMax, okEntry, okZero, other := true, true, false, ""
 						sawMax, sawEntry := false, false
-						phiEdges(arg, func(val ssa.Value, e prog.Edge) {
-							if kv, isK := prog.IntConst(val); isK {
+						var ls []leaf
+						leavesOf(fn, arg, c, nil, 0, &ls)
+						for _, l := range ls {
+							if kv, isK := prog.IntConst(l.val); isK {
 								switch kv {
 								case maxLam:
 									sawMax = true
-									if !edgeGuarded(fn, e, emptyVV(fn)) {
+									if !leafGuarded(l, emptyVV(l.fn)) {
 										okMax = false
 									}
 								case 0:
@@ -664,17 +725,17 @@ func init() {
 								default:
 									other = fmt.Sprint(kv)
 								}
-								return
+								continue
 							}
-							if entry.match(val) {
+							if entry.match(l.val) {
 								sawEntry = true
-								if !edgeGuarded(fn, e, []Cmp{isTrue(found)}) {
+								if !leafGuarded(l, []Cmp{isTrue(found)}) {
 									okEntry = false
 								}
-								return
+								continue
 							}
-							other = val.String()
-						}, map[*ssa.Phi]bool{})
+							other = l.val.String()
+						}
 						x.check(sawMax && okMax, k+" MaxLamport-only-for-empty-vector", x.pos(c), "everything is visible only to a local edit", "MaxLamport (everything visible) is used on an edge where the operation's version vector is not empty: a remote style is applied to nodes its author never saw")
 						x.check(sawEntry && okEntry, k+" entry-only-when-found", x.pos(c), "the creator's entry is used when present", "the creator's entry is not taken from the vector on the found edge")
 						x.check(okZero && other == "", k+" absent-creator-is-0", x.pos(c), "an absent creator means nothing of it was seen", "a creator absent from the version vector does not map to 0 (found: "+other+"): nodes its author never saw count as seen")
@@ -690,14 +751,31 @@ func init() {
 							n++
 							k := fmt.Sprintf("func=%s Remove-arg=%s", prog.FnName(fn), what)
 							okTrue, saw := true, false
-							phiEdges(c.Common().Args[idx], func(val ssa.Value, e prog.Edge) {
-								if vpTrue.match(val) {
-									saw = true
-									if !edgeGuarded(fn, e, append(emptyVV(fn), Cmp{L: entry, R: lamportOf, Want: GE})) {
-										okTrue = false
+							var ls []leaf
+							leavesOf(fn, c.Common().Args[idx], c, nil, 0, &ls)
+							for _, l := range ls {
+								if kc, isK := l.val.(*ssa.Const); isK {
+									if vpTrue.match(kc) {
+										saw = true
+										if !leafGuarded(l, append(emptyVV(l.fn), coveredCmp)) {
+											okTrue = false
+										}
+									}
+									continue
+								}
+								// a condition used as the value: it must itself say "local" or "covered"
+								// (or be reached only where that is already established)
+								saw = true
+								implied := false
+								for _, cm := range append(emptyVV(l.fn), coveredCmp) {
+									if r, ok := relOnTrue(l.val, cm.L, cm.R, nil); ok && implies(r, cm.Want) {
+										implied = true
 									}
 								}
-							}, map[*ssa.Phi]bool{})
+								if !implied && !leafGuarded(l, append(emptyVV(l.fn), coveredCmp)) {
+									okTrue = false
+								}
+							}
 							x.check(saw && okTrue, k+" true-only-if-local-or-covered", x.pos(c), "the flag is true only for a local edit or when the vector covers the ticket",
 								"the "+what+" flag can be true although the operation's version vector does not cover the ticket: a delete removes text its author never saw (or overwrites a tombstone it knew)")
 						}
